@@ -7,6 +7,18 @@ import "verif/sim/core"
 var realTerminal = []string{"gmrtd iso7816.NfcSession", "gmrtd iso7816.SecureMessaging", "gmrtd tlv", "gmrtd cryptoutils"}
 
 func RegisterAll() {
+	core.Register(&core.Check{
+		Property: "C20",
+		Level:    "exploration",
+		Rule: "race-detector build; 2-4 caller goroutines with scripts of 1-2 public API calls under the seeded cooperative scheduler (one worker released at a time; yield points before/after each call, inside Transceive, ReaderStatus, the slog handler, the crypto/rand.Reader proxy and the CertPool proxy, i.e. inside gmrtd's critical sections; hand-offs hidden from the detector so that only gmrtd's own locks order the workers); scenarios: A one shared reader.Reader (ReadDocument, SkipImages, SkipPace, WithAAChallenge), B one shared verifier.Verifier (Verify, WithAAChallenge), C independent readers/verifiers sharing one CertPool of each concrete type, D the mobile bindings in a fresh process incl. concurrent first use of the built-in trust store; oracles: zero race reports, porcupine linearizability against the real code executed alone on a fresh world with the same per-operation random streams, lone-execution equality for independent instances, master lists loaded once, no deadlock; " +
+			"distinct_nontrivial counts distinct (scenario, pool type, workers, script, schedule+result fingerprint) tuples",
+		Engines:        []core.Engine{SchedEngine{}},
+		Assumptions:    []string{"the scheduler decides who runs at harness-owned yield points; between two yield points the released worker runs alone", "readiness of a call on a lock-protected object is probed with TryLock on its mu field (reflect+unsafe); the probe never provides exclusion", "porcupine Unknown (time-out) is inconclusive and never reported"},
+		RealComponents: []string{"gmrtd reader.Reader, verifier.Verifier, mobile.Reader/Verifier/PreloadCscaCertPool, cms cert pools, and everything below them; Go race detector"},
+		SimComponents:  []string{"SimSched cooperative scheduler", "SimChip/SimPKI worlds", "per-operation random streams"},
+		RequiredProbes: []string{"lock_contended", "preempted_inside_call", "linearizable", "independent_instances_checked", "once_initialised_in_this_run"},
+		QuickBudget:    150, ThoroughBudget: 2400,
+	})
 	protoReal := []string{"gmrtd pace / bac / chipauth / activeauth, iso7816 (NfcSession, SecureMessaging), document constructors, password, mrz, cryptoutils"}
 	protoSim := []string{"SimChip protocol stack (own KDF, MACs, paddings, tokens, mapping, signatures)", "on-path adversary / impostor chip", "seeded terminal randomness via crypto/rand.Reader"}
 	core.Register(&core.Check{
